@@ -165,13 +165,14 @@ int main(int argc, char **argv) {
                 next_id += (int)n; left -= n;
                 int extras = *gx::range<int>(0, 3);
                 for (int x = 0; x < extras; x++) {
-                    int what = *gx::range<int>(0, 5);
+                    int what = *gx::range<int>(0, 6);
                     Op o;
                     if (what == 0 && next_id > 0) { int id = *gx::range<int>(0, next_id - 1); o.kind = K_PROBE; o.a = {id, id % 3, 0, 0}; }   // exact duplicate (maybe of an already reported one: then it is new again)
                     else if (what == 1) { o.kind = K_BURST; o.a = {*gx::range<int>(0, 400), *gx::range<int>(1, 5), 1}; }              // foreign-addressed
                     else if (what == 2) { o.kind = K_DISCOVER; o.a = {0, *gx::pick({0, 1}), *hg::gen_gen(), 1, d.a[4], 0, -1}; }
                     else if (what == 3) { o.kind = K_EMIT; o.a = {-1, *hg::seq_gen(), -1}; o.blob = *hg::emit_descs(3); }
                     else if (what == 4) { o.kind = K_QLT; o.a = {-1, *hg::seq_gen(), *gx::pick({0x0E, 0x11, 0x13}), 0, 0}; }
+                    else if (what == 6 && next_id > 0) { int id = *gx::range<int>(0, next_id - 1); o.kind = K_PROBE; o.a = {id, (id + 1 + *gx::range<int>(0, 1)) % 3 + 3, 0, 0}; }   // same Ethernet source as an earlier observation, another real source: a distinct observation
                     else { o.kind = K_HELLO; o.a = {1, 0, 7}; }
                     c.ops.push_back(o);
                 }
